@@ -4,6 +4,7 @@
 package main
 
 import (
+	"math"
 	"errors"
 	"fmt"
 	"strconv"
@@ -132,7 +133,9 @@ type expCache struct {
 	c *lru.ExpirableCache[int64, item]
 }
 
-func itemExp(i item) int64 { return int64(i.ExpiresAt.Sub(t0) / time.Second) }
+// itemExp: the expiry instant in whole seconds relative to t0 (rounded: an instant centuries ahead has lost its monotonic
+// clock reading, its distance from t0 is measured on the wall clock and may be off by nanoseconds)
+func itemExp(i item) int64 { return int64(math.Round(i.ExpiresAt.Sub(t0).Seconds())) }
 
 func (p expCache) get(pk int64) (string, bool) {
 	v, err := p.c.GetOrCreate(pk)
@@ -421,6 +424,9 @@ func main() {
 				off := int64(r.Range(30*60, 90*60))
 				if r.Chance(2, 5) {
 					off = -off
+				} else if r.Chance(1, 4) {
+					// "never": centuries ahead (beyond the year 2262, where time.Time.UnixNano ends), but within a time.Duration
+					off = int64(r.Range(250, 290)) * 365 * 24 * 3600
 				}
 				x.Exp = off
 			}
